@@ -3,6 +3,7 @@
 From Coq Require Import ZArith List Bool.
 From PV Require Import Model.Base Model.Sched Model.Seq.
 From PV Require Gen.Pure Gen.PureLoops Gen.PureSlot Gen.PureState Model.Chan Proofs.PureEq Proofs.PureLoopsEq Proofs.PureSlotEq Proofs.PureStateEq.
+From PV Require Proofs.SourceTie.
 From PV Require Import Proofs.SchedInv Proofs.ConflictSpec Proofs.RetargetSpec Proofs.RetargetWitness.
 Import ListNotations.
 Open Scope Z_scope.
@@ -146,3 +147,10 @@ Theorem C10_source_wait_for_fall :
     Gen.PureState.gen_wait_for_fall e n s = wait_for_fall e n s.
 Proof. exact PureStateEq.wait_for_fall_eq. Qed.
 Print Assumptions C10_source_wait_for_fall.
+
+(** The whole translation tie of the scheduler (see Proofs/SourceTie.v): every
+    scheduler function of the model this property's theorems rest on is equal to
+    the function regenerated from the current source. *)
+Theorem C10_source_scheduler : SourceTie.scheduler_tied.
+Proof. exact SourceTie.scheduler_source_tie. Qed.
+Print Assumptions C10_source_scheduler.
